@@ -1,6 +1,7 @@
 import PycModel.Proofs.StreamLemmas
 import PycModel.Proofs.LexerTotal
 import PycModel.Proofs.StreamRel
+import PycModel.Proofs.ParenExpr
 /-!
 # C16 — parsing work grows linearly, no backtracking blow-up
 
@@ -47,5 +48,25 @@ theorem whole_parse_lexes_each_token_once (fuel : Nat) (evs : List SEv) (v : Val
 theorem production_keeps_buffer_invariant (fuel : Nat) (nt : NT) (s : PState) (a : nt.Res) (s' : PState)
     (h : run fuel nt s = .ok a s') (g : Good s) : s'.lexCalls = s'.buf.size ∧ s.buf.size ≤ s'.buf.size :=
   ⟨((run_adv fuel nt s a s' h).good g).calls, (run_adv fuel nt s a s' h).bufMono⟩
+
+/-! ## a parser-level linear bound, for the expression fragment proved correct -/
+open PycModel.ParenExpr PycModel.View PycModel.OperandId PycModel.Climb in
+/-- **Linear recursion budget.** For every expression of identifiers, parentheses and binary
+operators - repetition (`a + a + ...`) as well as nesting (`((((a))))`, right-nested operators)
+of any size - fuel `9 * (number of tokens)` suffices for the parser model to finish with the
+right tree: fuel bounds the recursion depth plus the number of loop iterations on the deepest path
+(every `self` call and every loop re-entry of the model consumes one unit). -/
+theorem expression_fuel_linear (e : E) (m : Nat) (s : PState) (stop : Tk) (rest : List Tk)
+    (hwf : WFE m e) (hstop1 : binPrec stop.1 = none) (hstop2 : stop.1 ∉ postfixStarters)
+    (hs : SeesT s (e.flat ++ stop :: rest)) :
+    ∃ s', run (9 * e.ntoks) (.binaryExpression m none) s = .ok (e.val s.idx) s' :=
+  let ⟨s', h, _⟩ := (parse_ok e).1 m s stop rest hwf hstop1 hstop2 hs (9 * e.ntoks) (fuel_linear e)
+  ⟨s', h⟩
+
+open PycModel.Climb in
+/-- the pure mirror of the two loops needs fuel at most twice the number of tree nodes -/
+theorem precedence_climbing_fuel_linear (t : BT) (m : Nat) (h : WF binPrec m t) (k : List PT)
+    (hk : StopAt binPrec m k) : climb binPrec (2 * t.size) m none (t.toks ++ k) = some (t, k) :=
+  climb_correct binPrec t m h k hk _ (Nat.le_refl _)
 
 end PycModel.C16
